@@ -151,6 +151,10 @@ def run(tier, seed, replay=None):
                 v.violation(f"binary-exit:{j['_pid']}", f"rustfmt --check exits {code} on mutant "
                             f"{j['_pid']}", {"point": j["_pid"], "exit": code})
         t_ok, t_rej, tstates = ptrace.validate(tobs, sc)
+        suite_cov = {}
+        if tier == "thorough":
+            from . import suite
+            suite_cov = suite.check(v, "C16", sc)
         for rj in t_rej:
             if rj["invariant"] in ("TrExit", "TrEnds"):
                 v.violation(f"trace:{rj['invariant']}:{rj['key']}",
@@ -186,6 +190,7 @@ def run(tier, seed, replay=None):
            "outcomes": oc_count, "mutants": len([j for j in jobs if "mutate" in j]),
            "binary_traces": len(sample), "traces_validated_against_impl": t_ok,
            "obs_states": ostates + tstates, "samples": v.samples}
+    cov.update(suite_cov)
     return v.finish("exploration", cov, [
         "in-process: a panic reaching the driver's catch_unwind is what would kill the binary; "
         "every such outcome is re-run through the binary for the exit status",
